@@ -36,7 +36,6 @@ from typedpy import (Structure, Integer, String, Float, Boolean, Anything, Numbe
                      NegativeFloat, NonPositiveFloat, NonNegativeFloat, Positive, Negative, NonPositive, NonNegative)
 """
 
-FUTURE_LIMIT = 50
 
 
 # ------------------------------------------------------------------ meanings
@@ -395,25 +394,16 @@ def union_like(sp):
 
 
 def features(v, f, ann_len):
-    """known-divergence features of one field spelling, in priority order"""
+    """known-divergence features of one field spelling, in priority order.  (The PEP-604 / `Field | None` /
+    long-future-annotation features were removed when typedpy b6795f9 fixed those findings: a difference there
+    is now attributed to 'plain', i.e. reported as a new violation.)"""
     out = []
-    if v["future"] and f["mode"] == "ann" and ann_len >= FUTURE_LIMIT:
-        out.append("future-annotation-50")
     top = f["ty"]
     for n in _walk(top):
-        if n["s"] == "pipe" and not is_field_expr(n["x"]) and same_type_obj(n["x"], n["y"]):
-            out.append("typing-union-duplicate")     # `int | int` is just `int`
-        elif n["s"] == "pipe" and not is_field_expr(n["x"]):
-            out.append("pep604-plain-union" if n is top else "pep604-plain-union-nested")
-        elif n["s"] == "pipe":
-            y = n["y"]
-            if y["s"] == "none":
-                out.append("field-pipe-none")
-            elif not (is_field_expr(y) or y["s"] in ("builtin", "bareBuiltin", "dictBare")):
-                out.append("field-pipe-nonconvertible")
-        if n["s"] == "union" and same_type_obj(n["x"], n["y"]):
-            out.append("typing-union-duplicate")
-        if n["s"] in ("optional", "union") and any(union_like(n[k]) for k in ("x", "y") if k in n):
+        plain_pipe = n["s"] == "pipe" and not is_field_expr(n["x"])
+        if (n["s"] == "union" or plain_pipe) and same_type_obj(n["x"], n["y"]):
+            out.append("typing-union-duplicate")     # `Union[int, int]` / `int | int` is just `int`
+        if (n["s"] in ("optional", "union") or plain_pipe) and any(union_like(n[k]) for k in ("x", "y") if k in n):
             out.append("typing-union-flattened")
     d = f.get("dflt")
     if d and d["how"] == "kw" and not _truthy(d["v"]):
@@ -734,13 +724,10 @@ def field_features(case, model, i):
     return out
 
 
-PRIORITY = ["future-annotation-50", "pep604-plain-union", "pep604-plain-union-nested", "field-pipe-none",
-            "field-pipe-nonconvertible", "falsy-default-kw", "typing-union-duplicate", "typing-union-flattened"]
-
+PRIORITY = ["falsy-default-kw", "typing-union-duplicate", "typing-union-flattened"]
 
 CAUSES = {
-    "definition-error": ["pep604-plain-union-nested", "field-pipe-none", "field-pipe-nonconvertible", "falsy-default-kw"],
-    "field-dropped": ["future-annotation-50", "pep604-plain-union"],
+    "definition-error": ["falsy-default-kw"],
     "error-class-differs": ["typing-union-duplicate"],
 }
 
